@@ -12,8 +12,9 @@ tokens (`MX.toSpec []`).
   (`Lemmas/MacroStrSpec.lean`): the spelling between the quotes (`sanitized_str` and the blank rule against `escapeLit` and the blank
   rule of 6.10.3.2p2, `specBody_eq`) and the two lexers on `"` + spelling + `"` (`lexString_of_lexQuoted`);
 * `tokenizeOne_in_class`, `tokenize_in_class`, `stringify_conforms_lexed`: every token the lexer makes satisfies the token half of
-  `StrArgOk`, so for lexed arguments only the condition on the last character is left;
-* `stringify_trailing_backslash_witness`: the excluded class (spelling ends in a backslash) is a genuine difference (finding D45);
+  `StrArgOk`, so for lexed arguments no hypothesis is left;
+* `D45_fixed`, `D45_fixed_stringify`: finding D45 (a string literal or `#` spelling that ends in an escaped backslash) is repaired —
+  `StrArgOk` has lost its second clause, `lexString_of_lexQuoted` its last-character hypothesis;
 * `replaceFn_hash_conforms_partial`: replacement lists with `#` and without `##` — `replace` and `subst` return the same tokens
   whenever both return; `replaceFn_hash_total_partial`: under `replaceReady`, `replace` returns whenever `subst` does; `hex_identity` discharges its hypothesis about the "complete macro expansion" for arguments without macro
   names; `ReplaceFnConformsFull` (open, kept visible): the same with `##`.
@@ -44,8 +45,7 @@ theorem tokenizeOne_quote (x t r : List Char) (h : lexString.go (x.length + 1) [
 theorem stringify_conforms (ts : List Tok) (st : T) (hok : StrArgOk ts)
     (hspec : stringize (ts.map (toSpec [])) = .ok st) :
     ∃ t, stringify ts = some t ∧ toSpec [] t = st := by
-  obtain ⟨hcls, hend⟩ := hok
-  rw [← strBody_eq_match] at hend
+  have hcls : ∀ t ∈ ts, tokOk t = true := hok
   unfold stringize at hspec
   rw [specBody_eq ts hcls, ← strBody_eq_match] at hspec
   have hl : ("\"" ++ strBody ts ++ "\"").toList = '"' :: ((strBody ts).toList ++ ['"']) := by
@@ -62,15 +62,7 @@ theorem stringify_conforms (ts : List Tok) (st : T) (hok : StrArgOk ts)
     | cons a b => simp [hgo] at hspec
     | nil =>
       simp [hgo] at hspec
-      obtain ⟨m, hm1, hm2⟩ := lexString_of_lexQuoted (x.length + 1) x ['"'] [] chars hgo
-        (by
-          intro p hp
-          rw [← hx] at hp
-          have : (strBody ts).toList = p ++ ['\\'] := by
-            have h2 : (strBody ts).toList ++ ['"'] = (p ++ ['\\']) ++ ['"'] := by simpa using hp
-            exact List.append_cancel_right h2
-          exact hend (by rw [this]; simp))
-        (x.length + 1) (by omega)
+      obtain ⟨m, hm1, hm2⟩ := lexString_of_lexQuoted (x.length + 1) x ['"'] [] chars hgo (x.length + 1) (by omega)
       rw [tokenizeOne_quote x m [] (by simpa using hm2)]
       refine ⟨_, rfl, ?_⟩
       rw [← hspec, hm1]
@@ -86,11 +78,11 @@ theorem tokenizeOne_in_class (s : List Char) (pw : Bool) (t : Tok) (r : List Cha
 
 theorem tokenize_in_class (text : String) : ∀ t ∈ tokenize text, tokOk t = true := tokenize_tokOk text
 
-/-- **`#` conforms, arguments made by the lexer**: the only hypothesis left is that the spelling does not end in a backslash -/
-theorem stringify_conforms_lexed (text : String) (st : T) (hend : (strBody (tokenize text)).toList.getLast? ≠ some '\\')
+/-- **`#` conforms, arguments made by the lexer**: no hypothesis about the argument is left -/
+theorem stringify_conforms_lexed (text : String) (st : T)
     (hspec : stringize ((tokenize text).map (toSpec [])) = .ok st) :
     ∃ t, stringify (tokenize text) = some t ∧ toSpec [] t = st :=
-  stringify_conforms _ st ⟨tokenize_in_class text, by rw [← strBody_eq_match]; exact hend⟩ hspec
+  stringify_conforms _ st (tokenize_in_class text) hspec
 
 /-- non-vacuity: an argument with repeated blanks, a string literal with an escaped quote and a character constant `'\\'` is in
     the class, and the specification assigns it a string literal -/
@@ -102,21 +94,24 @@ example : StrArgOk (tokenize "a  + \"q\\\"\" '\\\\'") ∧
 example : StrArgOk [] ∧ (stringize []).toOption.map (·.text) = some "\"\"" ∧ StrArgOk (tokenize "a \\\\ b") ∧
     (stringize ((tokenize "a \\\\ b").map (toSpec []))).toOption.map (·.text) = some "\"a \\\\ b\"" := by decide +kernel
 
-/-- **the excluded class is a genuine difference** (finding D45): the argument `\\` (two stray backslashes) is spelled `"\\"`,
-    a valid string literal, by the specification; `Lexer.stringify` returns the punctuator `"` because `Lexer.string_constant`
-    pairs a backslash only with a following `"` and so reads the closing quote as escaped -/
-theorem stringify_trailing_backslash_witness :
+/-- **finding D45 repaired, `#` operands**: an argument whose spelling ends in a backslash (`\\\\`: two stray backslashes; `a \\\\`)
+    is in the class now; model = specification: `"\\\\"` is one string literal (before the repair `Lexer.stringify` returned the
+    punctuator `"`, because `Lexer.string_constant` paired a backslash only with a following `"` and read the closing quote as escaped) -/
+theorem D45_fixed_stringify :
     (stringize ((tokenize "\\\\").map (toSpec []))).toOption.map (·.text) = some "\"\\\\\"" ∧
-    stringify (tokenize "\\\\") = some ⟨.punct, "\"", false, true⟩ ∧ ¬ StrArgOk (tokenize "\\\\") := by decide +kernel
+    (stringify (tokenize "\\\\")).map spellTok = some "\"\\\\\"" ∧ StrArgOk (tokenize "\\\\") ∧
+    (stringify (tokenize "a \\\\")).map spellTok = some "\"a \\\\\"" := by decide +kernel
 
-/-- **finding D45 on well-formed input** (open): the same root cause at source level — a string literal that ends in an escaped
-    backslash (`"a\\"`) is not read as a string literal by `Lexer.string_constant` (it pairs a backslash only with a following `"`,
-    so the closing quote counts as escaped); the specification (and gcc) keep it one token; under `#` the result is `""` -/
-theorem D45_witness :
-    expandText [] [] "\"a\\\\\" x" = .ok ["\"", "a", "\\", "\\", "\"", "x"] ∧
+/-- **finding D45 repaired, well-formed input**: a string literal that ends in an escaped backslash (`"a\\\\"`) is one token for
+    `Lexer.string_constant` as for the specification (and gcc); under `#` its quotes and backslashes are escaped; `"a\\\\\\"b"` and
+    `"\\\\\\\\"` likewise.  (Before the repair: `"`, `a`, `\\`, `\\`, `"`, `x`, and `""` under `#`.) -/
+theorem D45_fixed :
+    expandText [] [] "\"a\\\\\" x" = .ok ["\"a\\\\\"", "x"] ∧
     specText [] "\"a\\\\\" x" = some ["\"a\\\\\"", "x"] ∧
-    expandText [] ["STR(x) #x"] "STR(\"a\\\\\")" = .ok ["\"\""] ∧
-    specText ["STR(x) #x"] "STR(\"a\\\\\")" = some ["\"\\\"a\\\\\\\\\\\"\""] := by
+    expandText [] ["STR(x) #x"] "STR(\"a\\\\\")" = .ok ["\"\\\"a\\\\\\\\\\\"\""] ∧
+    specText ["STR(x) #x"] "STR(\"a\\\\\")" = some ["\"\\\"a\\\\\\\\\\\"\""] ∧
+    expandText [] [] "\"a\\\\\\\"b\" \"\\\\\\\\\" y" = .ok ["\"a\\\\\\\"b\"", "\"\\\\\\\\\"", "y"] ∧
+    specText [] "\"a\\\\\\\"b\" \"\\\\\\\\\" y" = some ["\"a\\\\\\\"b\"", "\"\\\\\\\\\"", "y"] := by
   decide +kernel
 
 /-! ## `MacroFunction.replace` against `Spec.Prosser.subst`: replacement lists with `#`, without `##` -/
